@@ -69,7 +69,11 @@ class Layout:
     A slot is a list of (key, var, idx) scalars (inputs) or of ('x+', key, var, idx) /
     ('q', linkkey, idx) / ('q_o', originkey) scalars (outputs)."""
 
-    def __init__(self, spec: NetSpec, order=None, compact=0, more_out=False, pnames=(), names=None):
+    def __init__(self, spec: NetSpec, order=None, compact=0, more_out=False, pnames=(), names=None, var_order=None):
+        """var_order: optional {key: {group: [variable names]}} - the order of the variables inside one
+        element's group as observed on the real element (the property fixes the order of elements and
+        groups and that results follow their state arguments, not the order of `rho` and `v` inside a link);
+        it must be a permutation of the variables the spec declares."""
         self.spec = spec
         names = names or {}
 
@@ -79,6 +83,18 @@ class Layout:
         lk, ok, dk = element_order(spec, order)
         elems = lk + ok + dk
         ev = element_vars(spec)
+        self.var_order_problem = None
+        if var_order:
+            for key, groups in var_order.items():
+                for g, vs in groups.items():
+                    have = ev.get(key, {}).get(g, [])
+                    if sorted(vs) != sorted(v for v, _ in have):
+                        self.var_order_problem = f"{g}s of {key} are {vs}, expected {sorted(v for v, _ in have)}"
+                        continue
+                    if not have:
+                        continue
+                    sizes = dict(have)
+                    ev[key][g] = [(v, sizes[v]) for v in vs]
         self.elements = elems
         self.link_order, self.origin_order, self.dest_order = lk, ok, dk
         per_group = {g: [] for g in GROUPS}  # [(key, var, size)]
